@@ -9,6 +9,8 @@ mod c03;
 mod c10;
 mod c12;
 mod queries;
+mod engine_run;
+mod c17;
 mod tables;
 
 fn main() {
@@ -50,6 +52,7 @@ fn main() {
                 "C03" => c03::run(&params),
                 "C10" => c10::run(&params),
                 "C12" => c12::run(&params),
+                "C17" => c17::run(&params),
                 _ => { eprintln!("unknown property {}", id); std::process::exit(2); }
             };
             // the witnesses of this property run as part of every check (regression corpus)
